@@ -236,6 +236,21 @@ def check(spec, ctx):
         if same != out:
             ctx.fail("match_geometries(x, x) with one list object on both sides differs from the call with two equal lists", spec, same, out, kind="same_list_object")
         ctx.label("same_list_object")
+    # two results alive at the same time (match_geometries is lazy): the same question asked twice and one asked the other way round,
+    # consumed in lock step, give what the calls give one after the other
+    import itertools as _it
+
+    gen_a = match_geometries(src, tgt, time_buffer=tb, freq_buffer=fb)
+    gen_b = match_geometries(tgt, src, time_buffer=tb, freq_buffer=fb)
+    lock_a, lock_b = [], []
+    for xa, xb in _it.zip_longest(gen_a, gen_b):
+        if xa is not None:
+            lock_a.append(xa)
+        if xb is not None:
+            lock_b.append(xb)
+    seq_b = list(match_geometries(tgt, src, time_buffer=tb, freq_buffer=fb))
+    if lock_a != out or lock_b != seq_b:
+        ctx.fail("two match_geometries results consumed in lock step differ from the same calls made one after the other", spec, [lock_a, lock_b], [out, seq_b], kind="interleaved")
     # omitted buffers mean the documented defaults (0.01 s, 100 Hz)
     if n * m <= 9:
         d1 = [(a, b, c) for a, b, c in match_geometries(src, tgt)]
